@@ -90,7 +90,7 @@ void EGioNParse (char *input,
 	cur = input;
 	while(cur && (*argc) < max_argc)
 	{
-		cc = __EGiobuff[(int)(*cur)];
+		cc = __EGiobuff[(unsigned char)(*cur)];
 		switch(cc)
 		{
 			case '1':
@@ -169,7 +169,7 @@ void EGioParse (char **next,
 	cur = *current;
 	while(cur)
 	{
-		cc = __EGiobuff[(int)(*cur)];
+		cc = __EGiobuff[(unsigned char)(*cur)];
 		switch(cc)
 		{
 			case '1':
